@@ -174,6 +174,30 @@ def r10_1(ctx):
     ctx.need(n >= 40, f"only {n} templates sort-checked")
 
 
+def truth_test_width_independence(ctx):
+    """every site that turns a scalar into a truth value tests the WHOLE value: NON_ZERO(<read>) for every width and signedness
+    (?: condition, if condition, for condition, both operands of && / ||, operand of !)"""
+    idx = get_index(ctx.env)
+    bt = members_by_value(idx, "BooleanOpType")
+    for width in (8, 16, 32, 64):
+        for signed in (False, True):
+            vt = lambda n: mk_vt(n, signed, width, ("PURE",))
+            sites = [
+                ("Ternary", "il_exec", lambda: {"ops": [mk_pure("c", vt("tc")), mk_pure("b", mk_vt("tb", True, 32)), mk_pure("d", mk_vt("td", True, 32))]}, ["c"]),
+                ("Branch", "il_write", lambda: {"cond": mk_pure("c", vt("tc")), "then": mk_pure("t", cls="Effect"), "otherwise": mk_pure("e", cls="Effect")}, ["c"]),
+                ("ForLoop", "il_write", lambda: {"control": mk_pure("c", vt("tc")), "compound": mk_pure("body", cls="Effect")}, ["c"]),
+            ]
+            for spelled, m in sorted(bt.items()):
+                n_ops = 1 if spelled == "!" else 2
+                sites.append(("BooleanOp", "il_exec", (lambda m=m, n_ops=n_ops: {"op_type": m, "ops": [mk_pure(x, vt("t" + x)) for x in ("c", "d")[:n_ops]]}), ["c", "d"][:n_ops]))
+            for cls, method, mk, names in sites:
+                fi, outs = run_il_exec(idx, cls, mk, method=method)
+                obs = sorted({normalise(outcome_text(o)) for o in outs})
+                ok = bool(obs) and all(o.count(f"<{x}.il_read()>") == o.count(f"NON_ZERO(<{x}.il_read()>)") >= 1 for o in obs for x in names)
+                ctx.check(f"{cls}.{method}{'' if cls != 'BooleanOp' else '[' + str(mk()['op_type']) + ']'}: truth test of a {'s' if signed else 'u'}{width} operand", ok,
+                          "NON_ZERO(<read>) of the unconverted operand", " | ".join(obs)[:110], fn_where(idx, fi), nontrivial=(width != 32))
+
+
 @rule("R10.2", "C10", "one boolness predicate: every NON_ZERO site and the bool->int conversion decide by the BOOL flag of the operand's type; node classes that emit bools declare BOOL", min_instances=8)
 def r10_2(ctx):
     idx = get_index(ctx.env)
@@ -207,6 +231,7 @@ def r10_2(ctx):
             ok = bool(obs) and all(part("a", fa) in o and part("b", fb_) in o and (("BOOL" in fa) or f"NON_ZERO(<a.il_read()>)" in o) for o in obs)
             ok = ok and all((("BOOL" not in fa) or "NON_ZERO(<a.il_read()>)" not in o) and (("BOOL" not in fb_) or "NON_ZERO(<b.il_read()>)" not in o) for o in obs)
             ctx.check(f"BooleanOp.il_exec[{opname}; a {'bool' if 'BOOL' in fa else 'bv'}, b {'bool' if 'BOOL' in fb_ else 'bv'}]", ok, f"{part('a', fa)} {opname} {part('b', fb_)}", " | ".join(obs)[:120], fn_where(idx, fi))
+    truth_test_width_independence(ctx)
     from .c03 import r03_2
 
     r03_2(ctx)  # init_a_cast: a bool source is converted by ITE(src, 1, 0), decided by the BOOL flags of source and target
